@@ -325,6 +325,7 @@ pub fn replay_file(path: &str) -> i32 {
         "sched" => crate::sched::replay(&v),
         "autoalloc" => crate::autoalloc::replay(&v),
         "launcher" => crate::launcher::replay(&v),
+        "bootconf" => crate::bootconf::replay(&v["replay"]),
         other => {
             eprintln!("replay for engine {other} is handled by its module");
             2
